@@ -511,10 +511,22 @@ def observe (m : Mesh) : Step → String
       | none => "err:notAssembled"
   | _ => "."
 
-/-- `c12.hist step step …` → the observations of all calls, separated by `#` -/
+/-- the internal state the harness reads off the `Mesh` object after every call: `Mesh.assembled`, `Mesh.deleted`,
+    every `PatchList.patches` entry (also the emptied ones) with type and number of sides, `PatchList.modified`,
+    the sizes of the vertex / duplicated / block / edge / face lists, geometry names, default patch, merged pairs -/
+def stateDigest (m : Mesh) : String :=
+  "A[" ++ join "," (m.lists.assembled.map toString) ++ "]D[" ++ join "," (m.deleted.map toString) ++
+  "]P[" ++ join "," (m.lists.patches.map (fun p => s!"{p.name}:{p.kind}:{p.sides.length}")) ++
+  "]M[" ++ join "," m.modified ++
+  s!"]N[{m.lists.verts.length},{m.lists.blocks.length},{m.lists.edges.length},{m.lists.faces.length}]" ++
+  "G[" ++ join "," (m.geometry.map (·.1)) ++ "]" ++
+  (match m.dflt with | some (n, k) => s!"d[{n}:{k}]" | none => "d[]") ++ s!"m[{m.merged.length}]"
+
+/-- `c12.hist step step …` → for every call its observation, `@`, the state after it; calls separated by `#` -/
 def handleHist (args : List String) : Option String := do
   let steps ← args.mapM parseStep?
-  let r := steps.foldl (fun (acc : Mesh × List String) s => (step acc.1 s, observe acc.1 s :: acc.2)) ({}, [])
+  let r := steps.foldl (fun (acc : Mesh × List String) s =>
+    (step acc.1 s, (observe acc.1 s ++ "@" ++ stateDigest (step acc.1 s)) :: acc.2)) ({}, [])
   some (join "#" r.2.reverse)
 
 def handle (op : String) (args : List String) : Option String :=
